@@ -176,3 +176,19 @@ package lease_set2
 //@   ks := []EncryptionKey{key}
 //@   assert((validateEncryptionKeys(ks) == nil) == (e == nil))
 //@ }
+
+// C03 / C02 (framing of the tail, quick tier): the trailing signature of an
+// accepted LeaseSet2 has the size of the key that signs - the transient key's
+// type with offline keys, else the destination's signing type.  (The header
+// fields are lemma C02_C03_LS2HeaderFields_T, thorough tier.)
+//@ lemma C03_C02_LS2TrailingSignature(data []byte) {
+//@   ls2, _, err := ReadLeaseSet2(data)
+//@   if err == nil {
+//@     d := ls2.Destination()
+//@     if ls2.offlineSignature != nil {
+//@       assert(len(sig.SigData(ls2.signature)) == i2pd.SpecSigLen(offline_signature.OffTransientType(ls2.offlineSignature)))
+//@     } else {
+//@       assert(len(sig.SigData(ls2.signature)) == i2pd.SpecSigLen(key_certificate.SigType(d.KeysAndCert.KeyCertificate)))
+//@     }
+//@   }
+//@ }
